@@ -118,8 +118,8 @@ typedef enum {
 /* for the one tool that needs raw transitions */
 struct zrng_s {
 	stamp_t prev, next;
-	signed int offs:24;
-	unsigned int trno:8;
+	signed int offs;
+	signed int trno;
 } __attribute__((packed));
 
 
